@@ -491,3 +491,20 @@ func init() {
 		return Tuple{(*Value)(nil), e.newErrorString(e.strConst("url stub: parse refused"))}
 	})
 }
+
+func init() {
+	rt := rtPkgPath + "."
+	reg(rt+"FsCreateFile", func(fr *frame, args []Value) Value { return nil })
+	// FsRemoved: some successful remove/removeall event names exactly this path
+	reg(rt+"FsRemoved", func(fr *frame, args []Value) Value {
+		e := fr.e
+		p := args[0].(Str)
+		r := e.tt.False
+		for _, ev := range e.fsTrace {
+			if ev.op == "remove" || ev.op == "removeall" {
+				r = e.tt.Or(r, e.tt.And(ev.ok, e.strEq(ev.a, p)))
+			}
+		}
+		return r
+	})
+}
